@@ -38,7 +38,7 @@ def oracle(prog, out):
                 v.append(("worker_descriptor_count_differs", f"baseline worker has {nb} descriptors, worker started with "
                           f"{len(o['extras'])} extra parent descriptors has {nw}: {sorted(o['worker']['fds'].items())}"))
             for k, pv in o["parent_env"].items():
-                want = o["overlay"].get(k, pv)
+                want = prog["env"].get(k, pv)
                 for where in ("env", "env_at_import", "env_at_startup"):
                     snap = o["worker"].get(where)
                     if snap is None:
@@ -46,7 +46,16 @@ def oracle(prog, out):
                         continue
                     if snap.get(k) != want:
                         v.append(("worker_environment_differs", f"{k}: worker sees {snap.get(k)!r} ({where}), expected {want!r} "
-                                  f"(parent {pv!r}, overlay {o['overlay'].get(k)!r})"))
+                                  f"(parent {pv!r}, overlay {prog['env'].get(k)!r})"))
+        elif part == "env_change":
+            if o["first_pid"] != o["second_pid"]:
+                ov = prog["env"]          # (the harness' own copy: the driver's dict is the object handed to loky)
+                for k, pv in o["parent_now"].items():
+                    want = ov.get(k, pv)
+                    got = (o["second_env"] or {}).get(k)
+                    if got != want:
+                        v.append(("later_worker_environment_stale", f"{k}: a worker spawned after the parent's environment changed sees "
+                                  f"{got!r} at start-up, expected {want!r} (parent now {pv!r}, overlay {ov.get(k)!r})"))
         elif part == "exit":
             s = o["spec"]
             want = {"os_exit": s.get("n"), "sys_exit": s.get("n"), "return": 0, "raise": 1}.get(s["how"])
@@ -115,7 +124,7 @@ def real_shard(seed, n, tier="quick"):
     @given(st.lists(fdspec, max_size=12, unique_by=lambda d: d["dup_to"] if d["dup_to"] else id(d)), envs,
            st.lists(exitspec, max_size=3), st.one_of(st.none(), inits), st.booleans())
     def t(fds, env, exits, ini, main):
-        prog = {"fds": fds, "env": env, "exits": exits, "init": ini,
+        prog = {"fds": fds, "env": env, "exits": exits, "init": ini, "env_change": bool(env) or len(fds) % 2 == 0,
                 "main_script": {"workers": 2, "n": 6} if main else None}
         res = runner.run("drv_c18.py", prog, base, timeout=400)
         if res["timed_out"]:
